@@ -151,7 +151,7 @@ def run_episode(spec, uid="E"):
                                         "objs": [{"kind": f["kind"], "name": f["name"]} for f in it["rule"]["objs"]]},
                                "out": o["out"], "raw": o["raw"][:500], "same": observe(ev) == before})
             elif op == "law":
-                if all(s in archs for s in it["scans"]) or it["law"] in ("same", "entry"):
+                if True:
                     if it["law"] == "verdict" and not all(
                             any(e["k"] == "seval" and e["scan"] == s and e["rid"] == it["rid"] for e in events)
                             for s in it["scans"]):
